@@ -108,6 +108,15 @@ func (g *Gen) absent() IVal {
 // Input generates input data for a node in Parse mode.  With probability PValid a primitive node
 // gets an input its own schema accepts (found by trying candidates against the real schema).
 func (g *Gen) Input(n *Node) IVal {
+	v := g.input0(n)
+	if n == g.preRoot && v.Kind != "str" {
+		// Preprocess[string,string].Parse takes a string: no other dynamic type can be handed to that root
+		v = strV(Pick(g.R.Fork(0x9e0), []string{"abc", " pad ", "", "  ", "Hello", "a1"}))
+	}
+	return v
+}
+
+func (g *Gen) input0(n *Node) IVal {
 	if IsPrim(n.Kind) && g.P.PValid > 0 && g.R.P(g.P.PValid) {
 		probe := Build(&Recorder{}, n, false)
 		for try := 0; try < 12; try++ {
